@@ -3,7 +3,7 @@ use cosmwasm_std::{DepsMut, Env, MessageInfo, Response, StdError};
 use white_whale_std::pool_network::incentive::{ClosedPosition, OpenPosition};
 
 use crate::queries::get_rewards;
-use crate::state::ADDRESS_WEIGHT_HISTORY;
+use crate::state::{ADDRESS_WEIGHT_HISTORY, GLOBAL_WEIGHT_SNAPSHOT};
 use crate::{
     error::ContractError,
     helpers,
@@ -74,6 +74,20 @@ pub fn close_position(
     // remains the sum of all the address weights.
     let weight_to_reduce = weight_to_reduce.min(user_weight);
 
+    let current_epoch = helpers::get_current_epoch(deps.as_ref())?;
+
+    // the weights of this epoch are those the addresses had when the epoch started. If the global
+    // weight snapshot for the current epoch hasn't been taken yet, take it before lowering the
+    // global weight, otherwise the snapshot would not cover the weight this position still has
+    // during the current epoch and the reward shares of the epoch would add up to more than 100%.
+    if GLOBAL_WEIGHT_SNAPSHOT
+        .may_load(deps.storage, current_epoch)?
+        .is_none()
+    {
+        let current_global_weight = GLOBAL_WEIGHT.may_load(deps.storage)?.unwrap_or_default();
+        GLOBAL_WEIGHT_SNAPSHOT.save(deps.storage, current_epoch, &current_global_weight)?;
+    }
+
     // reduce the global weight
     GLOBAL_WEIGHT.update::<_, StdError>(deps.storage, |global_weight| {
         Ok(global_weight.saturating_sub(weight_to_reduce))
@@ -82,8 +96,6 @@ pub fn close_position(
     // reduce the weight for the user
     user_weight = user_weight.saturating_sub(weight_to_reduce);
     ADDRESS_WEIGHT.save(deps.storage, info.sender.clone(), &user_weight)?;
-
-    let current_epoch = helpers::get_current_epoch(deps.as_ref())?;
 
     // store new user weight in history for the next epoch
     ADDRESS_WEIGHT_HISTORY.update::<_, StdError>(
